@@ -1039,7 +1039,6 @@ func reachesCallNamed(p *Prog, pk *packages.Package, fd *ast.FuncDecl, call *ast
 	return false
 }
 
-
 // borrowedBacking: sel (a slice-typed field of a structure under construction) is assigned, somewhere in fd, a value
 // whose backing array is not new: a field of another value, possibly resliced, put in a local first, or handed in
 // through a slice parameter (then read at every call site of the function in the module, three levels up). Returns a
